@@ -74,3 +74,19 @@ Fixpoint exec_commits (s : store) (ws : list write) (k : nat) : store :=
   end.
 Definition commit_crash_state (f : list N) (s : store) (h : src) (k : nat) : store :=
   exec_commits s (snd (plan f s h)) k.
+
+(* ---- a storage error on one STATEMENT kind (injected below the repository by a SQLite trigger that aborts it):
+   kind 0 = the demoting UPDATE (SET header_state='STALE'), 1 = the promoting UPDATE ('LONGEST_CHAIN'), 2 = the INSERT.
+   Add stops at the first statement of that kind it would execute (an update of an empty list executes nothing). ---- *)
+Definition write_kind (w : write) : nat :=
+  match w with WUpdate _ Stale => 0 | WUpdate _ Longest => 1 | WUpdate _ Orphan => 3 | WInsert _ => 2 end.
+Fixpoint exec_until_kind (s : store) (ws : list write) (k : nat) : store :=
+  match ws with
+  | [] => s
+  | w :: ws' => if costs_commit w && Nat.eqb (write_kind w) k then s else exec_until_kind (apply_write s w) ws' k
+  end.
+Fixpoint hits_kind (ws : list write) (k : nat) : bool :=
+  match ws with [] => false | w :: ws' => (costs_commit w && Nat.eqb (write_kind w) k) || hits_kind ws' k end.
+Definition stmt_fault_state (f : list N) (s : store) (h : src) (k : nat) : store :=
+  exec_until_kind s (snd (plan f s h)) k.
+Definition stmt_fault_hits (f : list N) (s : store) (h : src) (k : nat) : bool := hits_kind (snd (plan f s h)) k.
